@@ -75,7 +75,9 @@ def planar_degenerate(planar_obj, cond):
         uh = np.asarray(g.get_act_scale(), np.float64)
         wu = float(np.asarray(g._act_scale, np.float64) @ w)
         lim = -10.0 if bd.shim.F32 else -30.0
-        return (not np.isfinite(wu)) or wu < lim or abs(1.0 + float(w @ uh)) < (1e-4 if bd.shim.F32 else 1e-9)
+        slopes = [1.0] + ([float(g.negative_slope)] if g.negative_slope is not None else [])
+        tiny = 1e-3 if bd.shim.F32 else 1e-6
+        return (not np.isfinite(wu)) or wu < lim or any(abs(1.0 + sl * float(w @ uh)) < tiny for sl in slopes)
     except Exception:  # noqa: BLE001
         return False
 
